@@ -15,13 +15,14 @@ repo="${VERIF_REPO:-/repo}"
 out="${VERIF_OUT:-$PWD}"
 mkdir -p bin "$out/evidence"
 
-hdir=harness
+hsrc="${VERIF_HARNESS:-$PWD/harness}"   # development only: a frozen copy of the harness sources
+hdir="$hsrc"
 tag=""
 if [ "$repo" != "/repo" ]; then
   tag="-$(echo "$repo" | md5sum | cut -c1-8)"
   hdir="$out/.work/harness$tag"
   mkdir -p "$hdir"
-  rsync -a --delete harness/ "$hdir/"
+  rsync -a --delete "$hsrc/" "$hdir/"
   (cd "$hdir" && go mod edit -replace "github.com/nlnwa/whatwg-url=$repo")
 fi
 cp -f "$repo/go.sum" "$hdir/go.sum"
